@@ -223,6 +223,7 @@ type session struct {
 	failSet map[int]bool
 	tr      *Trace
 	rng     *rand.Rand
+	ehHolds     []chan struct{}
 	stopReaders []chan struct{}
 	readerWG    sync.WaitGroup
 }
@@ -694,6 +695,32 @@ func RunSession(spec *SessSpec) *Trace {
 			ck.TIdleRet = evlog.Tick()
 			ck.IdleWrites = s.writeCount() - w0
 			tr.Checks = append(tr.Checks, ck)
+		case "setcollhigh": // scripted collection-aware high seqno (may lie below the tracked position)
+			env.Sim.SetCollHigh(uint16(st.VB), 0, uint64(st.N))
+			for _, id := range spec.Colls {
+				env.Sim.SetCollHigh(uint16(st.VB), id, uint64(st.N))
+			}
+		case "holdeh": // hold the library inside a lifecycle callback (st.Sel) until "releaseeh"
+			ch := make(chan struct{})
+			s.ehHolds = append(s.ehHolds, ch)
+			name := st.Sel
+			full.EH.SetHold(name, func() {
+				env.Log.Add(evlog.Rec{K: "eh.held." + name, VB: -1})
+				<-ch
+			})
+		case "waitheld":
+			name := st.Sel
+			hx.WaitFor(10*time.Second, func() bool { return env.Log.Count("eh.held."+name) > 0 })
+		case "releaseeh":
+			for _, n := range []string{"BRS", "ARS", "BRE", "ARE", "BSStart", "ASStart", "BSS", "ASS"} {
+				full.EH.SetHold(n, nil)
+			}
+			for _, ch := range s.ehHolds {
+				close(ch)
+			}
+			s.ehHolds = nil
+		case "rebalanceapi":
+			go hx.HTTPDo("GET", fmt.Sprintf("http://127.0.0.1:%d/rebalance", tr.APIPort), "", 30*time.Second)
 		case "releasereq":
 			close(reqHoldCh)
 		case "waithold":
@@ -762,6 +789,13 @@ func RunSession(spec *SessSpec) *Trace {
 		close(c)
 	}
 	s.readerWG.Wait()
+	for _, n := range []string{"BRS", "ARS", "BRE", "ARE", "BSStart", "ASStart", "BSS", "ASS"} {
+		full.EH.SetHold(n, nil)
+	}
+	for _, ch := range s.ehHolds {
+		close(ch)
+	}
+	s.ehHolds = nil
 	if !closed && !spec.NoFinalClose {
 		tr.CloseOK = full.Close(20 * time.Second)
 	}
